@@ -4,9 +4,11 @@ CONSTANTS
   Ticks = FALSE
   SkipFix = FALSE
   CctFix = FALSE
+  SelfFailFix = FALSE
   QMax = 100
   PPInterval = 2
   TestMode = TRUE
+  FaultKinds <- NoFaults
   MaxEternal = 2
 VIEW view
 INVARIANT TypeOK
